@@ -1,0 +1,179 @@
+//! Query hooks: access to the iterative-query state machines of `src/query_pool` (a private
+//! module) for the external verification harness.
+//!
+//! `QueryPool`, `Query`, `QueryId`, `QueryPoolState`, `QueryResult`, `QueryState` and `TargetKey`
+//! are public items of the private module and are re-exported. `FindNodeQuery`,
+//! `FindNodeQueryConfig`, `PredicateQuery` and `PredicateQueryConfig` are only visible inside the
+//! crate; they are reached through the thin delegating wrappers [`FindNode`] and [`Predicate`] and
+//! the constructor functions below. The `verif_dump` methods are defined next to the state
+//! machines (their fields are private to those modules) and only copy fields.
+pub use crate::query_pool::{
+    Query, QueryId, QueryPool, QueryPoolState, QueryResult, QueryState, TargetKey,
+};
+
+use crate::kbucket::{Key, PredicateKey};
+use crate::query_pool::{
+    FindNodeQuery, FindNodeQueryConfig, PredicateQuery, PredicateQueryConfig,
+};
+use std::time::{Duration, Instant};
+
+/// Copy of `QueryPeerState`.
+#[derive(Debug, Clone, Copy, PartialEq, Eq)]
+pub enum PeerStateDump {
+    NotContacted,
+    Waiting(Instant),
+    Unresponsive,
+    Failed,
+    Succeeded,
+}
+
+/// Copy of `QueryProgress`.
+#[derive(Debug, Clone, Copy, PartialEq, Eq)]
+pub enum ProgressDump {
+    Iterating(usize),
+    Stalled,
+    Finished,
+}
+
+/// Copy of a `QueryPeer` (`predicate_match` is `true` for the plain variant, which has no such field).
+#[derive(Debug, Clone)]
+pub struct PeerDump<TNodeId> {
+    pub id: TNodeId,
+    pub state: PeerStateDump,
+    pub peers_returned: usize,
+    pub predicate_match: bool,
+}
+
+/// Copy of the state of a `FindNodeQuery` / `PredicateQuery`; `peers` in the order of the
+/// `closest_peers` map.
+#[derive(Debug, Clone)]
+pub struct QueryDump<TNodeId> {
+    pub predicate: bool,
+    pub progress: ProgressDump,
+    pub num_waiting: usize,
+    pub parallelism: usize,
+    pub num_results: usize,
+    pub peer_timeout: Duration,
+    pub peers: Vec<PeerDump<TNodeId>>,
+}
+
+/// `FindNodeQueryConfig { .. }`
+pub fn findnode_config(
+    parallelism: usize,
+    num_results: usize,
+    peer_timeout: Duration,
+) -> FindNodeQueryConfig {
+    FindNodeQueryConfig {
+        parallelism,
+        num_results,
+        peer_timeout,
+    }
+}
+
+/// `QueryPool::add_predicate_query` (crate-visible) with a `PredicateQueryConfig { .. }`.
+pub fn add_predicate_query<TTarget, TNodeId, TResult>(
+    pool: &mut QueryPool<TTarget, TNodeId, TResult>,
+    parallelism: usize,
+    num_results: usize,
+    peer_timeout: Duration,
+    target: TTarget,
+    peers: Vec<PredicateKey<TNodeId>>,
+    predicate: impl Fn(&TResult) -> bool + Send + 'static,
+) -> QueryId
+where
+    TTarget: TargetKey<TNodeId>,
+    TNodeId: Into<Key<TNodeId>> + Eq + Clone,
+    TResult: Into<TNodeId> + Clone,
+{
+    let config = PredicateQueryConfig {
+        parallelism,
+        num_results,
+        peer_timeout,
+    };
+    pool.add_predicate_query(config, target, peers, predicate)
+}
+
+/// Delegating wrapper around `FindNodeQuery`.
+pub struct FindNode<TNodeId>(FindNodeQuery<TNodeId>);
+
+impl<TNodeId> FindNode<TNodeId>
+where
+    TNodeId: Into<Key<TNodeId>> + Eq + Clone,
+{
+    pub fn with_config(
+        parallelism: usize,
+        num_results: usize,
+        peer_timeout: Duration,
+        target_key: Key<TNodeId>,
+        known_closest_peers: Vec<Key<TNodeId>>,
+    ) -> Self {
+        FindNode(FindNodeQuery::with_config(
+            findnode_config(parallelism, num_results, peer_timeout),
+            target_key,
+            known_closest_peers,
+        ))
+    }
+    pub fn next(&mut self, now: Instant) -> QueryState<TNodeId> {
+        self.0.next(now)
+    }
+    pub fn on_success(&mut self, node_id: &TNodeId, closer_peers: Vec<TNodeId>) {
+        self.0.on_success(node_id, closer_peers)
+    }
+    pub fn on_failure(&mut self, peer: &TNodeId) {
+        self.0.on_failure(peer)
+    }
+    pub fn into_result(self) -> Vec<TNodeId> {
+        self.0.into_result()
+    }
+    pub fn dump(&self) -> QueryDump<TNodeId> {
+        self.0.verif_dump()
+    }
+}
+
+/// Delegating wrapper around `PredicateQuery`.
+pub struct Predicate<TNodeId, TResult>(PredicateQuery<TNodeId, TResult>);
+
+impl<TNodeId, TResult> Predicate<TNodeId, TResult>
+where
+    TNodeId: Into<Key<TNodeId>> + Eq + Clone,
+    TResult: Into<TNodeId> + Clone,
+{
+    pub fn with_config(
+        parallelism: usize,
+        num_results: usize,
+        peer_timeout: Duration,
+        target_key: Key<TNodeId>,
+        known_closest_peers: Vec<PredicateKey<TNodeId>>,
+        predicate: impl Fn(&TResult) -> bool + Send + 'static,
+    ) -> Self {
+        let config = PredicateQueryConfig {
+            parallelism,
+            num_results,
+            peer_timeout,
+        };
+        Predicate(PredicateQuery::with_config(
+            config,
+            target_key,
+            known_closest_peers,
+            predicate,
+        ))
+    }
+    pub fn next(&mut self, now: Instant) -> QueryState<TNodeId> {
+        self.0.next(now)
+    }
+    pub fn on_success<'a>(&mut self, node_id: &TNodeId, closer_peers: &'a [TResult])
+    where
+        &'a TResult: Into<TNodeId>,
+    {
+        self.0.on_success(node_id, closer_peers)
+    }
+    pub fn on_failure(&mut self, peer: &TNodeId) {
+        self.0.on_failure(peer)
+    }
+    pub fn into_result(self) -> Vec<TNodeId> {
+        self.0.into_result()
+    }
+    pub fn dump(&self) -> QueryDump<TNodeId> {
+        self.0.verif_dump()
+    }
+}
